@@ -52,7 +52,8 @@ def run_case(case):
     ops: open, close, sync_open, sync_close, wait_packets k, sleep dt, reconnect (sync_open on a fault-free device,
     wait for fully connected, sync_close)."""
     cfgkw = dict(case.get('cfg', {}))
-    S = detsched.install(case.get('seed', 0), case.get('choices'), horizon=case.get('horizon', 200.0))
+    S = detsched.install(case.get('seed', 0), case.get('choices'), horizon=case.get('horizon', 200.0),
+                         line_yield=case.get('line_yield', ()))
     log = []          # merged, in order: ['cb', name, thread, attempt] callbacks seen by the application and
                       # ['ev', name, thread] entries into the library's transition functions / user calls
     res = []
@@ -153,6 +154,22 @@ def run_case(case):
                                 and len(dev.FakeLink.instances) == n0 + 1:
                             cf.close_link()
                     threading.Thread(target=closer).start()
+                elif name == 'wait_line':
+                    # wait until some other thread is about to execute a source line of function op[1] (in
+                    # cflib/crazyflie/__init__.py) that contains the text op[2], after at least op[3] packets
+                    # (needs case['line_yield'] for that function: byte-code-level preemption point)
+                    import inspect
+                    import cflib.crazyflie as _cfm
+                    fn = {'run': _cfm._IncomingPacketHandler.run, 'send_packet': _cfm.Crazyflie.send_packet}[op[1]]
+                    src, start = inspect.getsourcelines(fn)
+                    whats = set('line %d' % (start + i) for i, l in enumerate(src) if op[2] in l)
+                    me = detsched._real_current()
+
+                    def at_line():
+                        if not dev.FakeLink.instances or dev.FakeLink.instances[-1].count < op[3]:
+                            return False
+                        return any(t is not me and i['what'] in whats for t, i in S.threads.items())
+                    S.block(at_line, 20.0, 'wait_line')
                 elif name == 'bg_mem_write':
                     # a second user thread writes to a memory once k packets have been exchanged (the device does
                     # not answer memory traffic: only the library's locking is exercised)
